@@ -7,6 +7,7 @@ multi-rule files with SUPERIORS split over texts, the shipped rule files, regene
 corruptions (judged by an independent reference recogniser, mc.ref.grammar) are enumerated exhaustively.
 """
 import glob
+import fractions
 import itertools
 import os
 
@@ -44,7 +45,9 @@ PROFILES = {"a", "b", "c", "d"}
 CATEGORIES = {"cat", "other"}
 N_CHUNKS = 16
 SEPARATORS = ["  ", "\t", "\n", " # comment\n", " # see http://x/y:z and more\n", "\n\n  "]
-DIST_MENU = [(5, 20, 1.0, 1.0), (1, 1, 1.0, 1.0), (20, 5, 0.5, 1.5), (3, 7, 1.5, 0.5), (10, 10, 2.0, 3.0)]
+DIST_MENU = [(5, 20, 1.0, 1.0), (1, 1, 1.0, 1.0), (20, 5, 0.5, 1.5), (3, 7, 1.5, 0.5), (10, 10, 2.0, 3.0),
+             # products that are whole numbers of bases but not exactly representable in binary floating point
+             (11, 3, 0.7, 2.3), (10, 20, 1.13, 1.13)]
 
 
 # ---------------------------------------------------------------- helpers
@@ -145,9 +148,13 @@ def compare_rule(real, ref, mult=(1.0, 1.0)):
         fails.append(("name", f"{real.name} vs {ref.name}"))
     if real.category != ref.category:
         fails.append(("category", f"{real.category} vs {ref.category}"))
-    if real.cutoff != int(ref.cutoff_kb * 1000 * mult[0]):
+    # kilobases times the multiplier as written (0.7 is seven tenths, not the nearest binary fraction): a whole number of bases
+    # must come out exactly, anything else may be rounded either way
+    exact_cutoff = ref.cutoff_kb * 1000 * fractions.Fraction(str(mult[0]))
+    exact_neighbourhood = ref.neighbourhood_kb * 1000 * fractions.Fraction(str(mult[1]))
+    if abs(real.cutoff - exact_cutoff) >= 1:
         fails.append(("cutoff", f"{real.cutoff} vs {ref.cutoff_kb}kb x {mult[0]}"))
-    if real.neighbourhood != int(ref.neighbourhood_kb * 1000 * mult[1]):
+    if abs(real.neighbourhood - exact_neighbourhood) >= 1:
         fails.append(("neighbourhood", f"{real.neighbourhood} vs {ref.neighbourhood_kb}kb x {mult[1]}"))
     if sorted(real.superiors or []) != sorted(ref.superiors):
         fails.append(("superiors", f"{real.superiors} vs {ref.superiors}"))
@@ -586,6 +593,30 @@ def check_shipped(res):
         res.outcomes[("shipped", not fails)] += 1
         if fails:
             out.append((fails, {"kind": "shipped", "rule": ref.name}))
+    # the same files through the documented constructor of rule sets, with and without multipliers, and through the copy that
+    # hmm_detection makes to apply the fungal multipliers
+    from antismash.common.hmm_rule_parser.cluster_prediction import Ruleset  # pylint: disable=import-outside-toplevel
+    from antismash.detection import hmm_detection as hd  # pylint: disable=import-outside-toplevel
+    by_name = {ref.name: ref for ref in ref_rules}
+    for mult in ((1.0, 1.0), (2.0, 3.0), (0.7, 1.5)):
+        for route in ("from_files", "copy"):
+            multipliers = Multipliers(cutoff=mult[0], neighbourhood=mult[1])
+            if route == "from_files":
+                ruleset = Ruleset.from_files(hd.SIGNATURE_FILE, hd.HMM_FILE, files, hd.CATEGORIES, hd.EQUIVALENCE_GROUPS, "tool",
+                                             dynamic_profiles=hd.DYNAMIC_PROFILES, multipliers=multipliers)
+            else:
+                ruleset = Ruleset.from_files(hd.SIGNATURE_FILE, hd.HMM_FILE, files, hd.CATEGORIES, hd.EQUIVALENCE_GROUPS, "tool",
+                                             dynamic_profiles=hd.DYNAMIC_PROFILES)
+                ruleset = ruleset.copy_with_replacements(rules=list(ruleset.rules), multipliers=multipliers)
+            res.buckets["shipped:rulesets"] += 1
+            for real in ruleset.rules:
+                ref = by_name[real.name]
+                res.evals += 1
+                res.nontrivial += 1
+                fails = [(f"ruleset-{clause}", f"{route} {mult}: {detail}") for clause, detail in compare_rule(real, ref, mult)
+                         if clause in ("cutoff", "neighbourhood")]
+                if fails:
+                    out.append((fails, {"kind": "shipped-ruleset", "rule": ref.name, "route": route, "mult": list(mult)}))
     res.sample({"kind": "shipped", "rule": ref_rules[0].name}, 1)
     return out
 
@@ -604,9 +635,9 @@ def replay(case):
         return check_files(list(superior_patterns())[case["pattern"]], case["split"])
     if kind == "files":
         return check_files(list(file_patterns())[case["pattern"]], case["split"], None, tuple(case.get("mult", (1.0, 1.0))))
-    if kind == "shipped":
+    if kind in ("shipped", "shipped-ruleset"):
         res = Result()
-        return [f for fails, c in check_shipped(res) if c["rule"] == case["rule"] for f in fails]
+        return [f for fails, c in check_shipped(res) if c == case for f in fails]
     if kind == "corrupt":
         if case["origin"] == "tree":
             # the id is the tree itself
